@@ -9,6 +9,7 @@ import HexProofs.Numeric.Adx
 import HexProofs.Numeric.Stdev
 import HexProofs.Numeric.Supertrend
 import HexProofs.Numeric.Rounding
+import HexProofs.Numeric.SeriesMore
 import HexProofs.Numeric.Demo
 /-
 C10 – Outputs satisfy their structural invariants on every input
@@ -311,13 +312,64 @@ example : ((Val.flt (1234567 / 100000 : ℚ)).roundBy 2).roundBy 2 = (Val.flt (1
 theorem stored_order (n : Nat) (x y : K) (h : x ≤ y) : PyF.round n x ≤ PyF.round n y :=
   round_le_round n x y h
 
-/-- The full property: on every well-formed stream all listed relations hold of the stored
-readings of every indicator.  MISSING: the framework induction establishing the hypotheses used
-above on reachable states (non-negative smoothed gain/loss and DM, σ ≥ 0 read back from the STDEV
-helper, the Supertrend's previous direction being ±1, `|second| ≤ abs_second` for TSI, DI ≤ 100
-for ADX which needs ATR ≥ smoothed DM), and the slack analysis for relations between two
-separately rounded floats (e.g. rounded Donchian middle vs mean of rounded bounds: within ε). -/
+/-! ### whole series -/
+
+/-- **TR ≥ high − low ≥ 0 on every candle of every well-formed raw stream** (the stored value is
+the rounding of a number with that property). -/
+theorem tr_series_ge_range (nm : String) (n : Nat) (hk : IsKey nm)
+    (raw : List (Candle K)) (hraw : ∀ c ∈ raw, Plain c) (hwf : ∀ c ∈ raw, c.l.toF ≤ c.h.toF) :
+    ∃ vs : List (Val K), vs.length = raw.length ∧
+      rowMajor (mkTop .tr nm n) raw = .ok (deco nm raw vs) ∧
+      ∀ j, 1 ≤ j → j < raw.length → ∃ t : Num K, vs.getD j .none = .num (t.roundBy n) ∧
+        0 ≤ fieldAt (·.h) raw j - fieldAt (·.l) raw j ∧ fieldAt (·.h) raw j - fieldAt (·.l) raw j ≤ t.toF ∧
+        |(t.roundBy n).toF - t.toF| ≤ eps K n := by
+  obtain ⟨vs, h1, h2, h3⟩ := tr_series nm n hk raw hraw
+  refine ⟨vs, h1, h2, fun j hj1 hj => ?_⟩
+  obtain ⟨t, ht, htv⟩ := (h3 j hj).2 hj1
+  have hmem : raw.getD j default ∈ raw := by
+    rw [List.getD_eq_getElem?_getD, List.getElem?_eq_getElem hj]; exact List.getElem_mem _
+  have hlh : fieldAt (·.l) raw j ≤ fieldAt (·.h) raw j := hwf _ hmem
+  refine ⟨t, ht, by linarith, ?_, stored_close n t⟩
+  rw [htv]; exact le_trans (le_max_left _ _) (le_max_left _ _)
+
+/-- **Every SMA reading lies within the range of the inputs it averages**, up to its rounding
+budget. -/
+theorem sma_series_within (p : Nat) (hp : 2 ≤ p) (nm : String) (n : Nat) (hk : IsKey nm)
+    (raw : List (Candle K)) (hraw : ∀ c ∈ raw, Plain c) (lo hi : K)
+    (hb : ∀ j, j < raw.length → lo ≤ fieldAt (·.c) raw j ∧ fieldAt (·.c) raw j ≤ hi) :
+    ∃ vs : List (Val K), vs.length = raw.length ∧
+      rowMajor (mkTop (.sma p "close") nm n) raw = .ok (deco nm raw vs) ∧
+      ∀ j, j < raw.length → p ≤ j + 1 → ∃ y, vs.getD j .none = .flt y ∧
+        lo - ((j + 2 - p : Nat) : K) * eps K n ≤ y ∧ y ≤ hi + ((j + 2 - p : Nat) : K) * eps K n := by
+  obtain ⟨vs, h1, h2, h3⟩ := sma_series p hp nm "close" (·.c) n hk noDot_close (fun _ => rfl) raw hraw
+  refine ⟨vs, h1, h2, fun j hj hpj => ?_⟩
+  obtain ⟨y, hy, hbound⟩ := (h3 j hj).2 hpj
+  have hm := mean_between p (fun k => fieldAt (·.c) raw (j + 1 - p + k)) lo hi (by omega)
+    (fun k hk' => hb _ (by omega))
+  have := abs_le.1 hbound
+  unfold winMean at this
+  exact ⟨y, hy, by linarith [this.1, hm.1], by linarith [this.2, hm.2]⟩
+
+/-- The full property, stated for RSI (the other relations – Stochastic/Aroon/ADX in [0,100], TSI
+in [−100,100], ATR, σ ≥ 0, band orderings, Donchian enclosing the candle, MACD histogram,
+Supertrend shape, OBV and Counter moves – have the same shape): on every raw stream and every
+`period ≥ 2` the ENGINE `calculate` returns and every stored RSI reading is `None` or a float in
+[0, 100].
+NOT proved.  Proved instead: each relation for the value returned by a single call under the
+hypothesis that makes it meaningful, that integer bounds and weak order survive `round_values`
+(`stored_rounded`, `stored_order`), and the whole-series relations for TR and SMA above.
+Missing: the framework induction establishing those hypotheses on reachable states (non-negative
+smoothed gain/loss and DM – the step lemmas `rsi_state_nonneg`, `di_nonneg`, `atr_nonneg` are here
+–, σ ≥ 0 read back from the STDEV helper, previous Supertrend direction ±1, `|second| ≤ abs_second`
+for TSI, DI ≤ 100 for ADX which needs ATR ≥ smoothed DM), and the slack analysis for relations
+between two separately rounded floats (e.g. the rounded Donchian middle vs the mean of the rounded
+bounds: within ε). -/
 def C10_FULL : Prop :=
-  ∀ (K : Type) [Field K] [LinearOrder K] [IsStrictOrderedRing K] [LawfulPyF K], True
+  ∀ (K : Type) [Field K] [LinearOrder K] [IsStrictOrderedRing K] [LawfulPyF K]
+    (p : Nat) (nm : String) (n : Nat) (raw : List (Candle K)),
+    2 ≤ p → IsKey nm → (∀ c ∈ raw, Plain c) →
+    ∃ out : List (Candle K), calculate (fuelFor raw) (mkTop (.rsi p "close") nm n) raw = .ok out ∧
+      ∀ c ∈ out, readingByCandle c nm = .none ∨
+        ∃ y : K, readingByCandle c nm = .flt y ∧ 0 ≤ y ∧ y ≤ 100
 
 end Hex.C10
